@@ -339,3 +339,31 @@ Theorem C03_setdef_default_present_read : forall t v bs rest,
   cber_dec t (bs ++ rest) = Some (strip_dflt t v, rest).
 Proof. exact cder_roundtrip_in_stream. Qed.
 Print Assumptions C03_setdef_default_present_read.
+(* ---- PrimB: restricted character strings (Rt/PrimB.v) ----
+   The reference decoders accept what the encoders emit for the string types of coq/Rt/PrimB.v (known-multiplier types with SIZE /
+   extensible SIZE / FROM constraints, UTF8String and the others; top level, EXPLICIT tags, SEQUENCE member, SEQUENCE OF element),
+   whatever follows the encoding in the stream.  Hypotheses: coq/Rt/PrimBProofs.v ([wf_leaf]: every character code fits the
+   width the writer uses; the C's plain NumericString violates it, C01_primb_uper_leaf_numeric_plain_refuted). *)
+From A1 Require Import Rt.Uper Rt.UperProofs Rt.Oer Rt.OerProofs Rt.PrimB Rt.PrimBProofs.
+
+(* unaligned PER, both readings: every encoding of a well-typed value is accepted, read as that value, and the reader stops
+   exactly at its end *)
+Theorem C03_primb_uper_accepts : forall std t v bits rest,
+  wf_sty_uper std t = true -> wt_sty_uper std t v = true -> pb_uper std t v = Some bits ->
+  pb_uper_dec std t (bits ++ rest) = Some (v, rest).
+Proof. exact pb_uper_roundtrip_in_stream. Qed.
+Print Assumptions C03_primb_uper_accepts.
+
+(* BER: the DER encoding (string leaves are primitive OCTET STRING TLVs with the string's tag) is accepted *)
+Theorem C03_primb_ber_accepts : forall t v bs rest,
+  DerProofs.wf_ty (der_ty t) = true -> DerProofs.wt (der_ty t) v = true -> pb_der t v = Some bs ->
+  zlen bs <= rssize_max -> pb_ber_dec t (bs ++ rest) = Some (v, rest).
+Proof. exact pb_der_roundtrip_in_stream. Qed.
+Print Assumptions C03_primb_ber_accepts.
+
+(* OER: with or without length determinant (fixed SIZE of a known-multiplier type: size in octets) *)
+Theorem C03_primb_oer_accepts : forall t v bs rest,
+  OerProofs.wf_ty_oer (oer_ty t) = true -> OerProofs.wt_oer (oer_ty t) v = true -> pb_oer t v = Some bs ->
+  pb_oer_dec t (bs ++ rest) = Some (v, rest).
+Proof. exact pb_oer_roundtrip_in_stream. Qed.
+Print Assumptions C03_primb_oer_accepts.
